@@ -662,7 +662,7 @@ def run(ctx):
         for p in (1, 2):
             if p == 2 and (q and (n, k) not in ((3, 1), (4, 1), (3, 2)) or not q and (n, k) == (5, 2)):
                 continue
-            thetas = [T for _, _, T in bases(n, k, p, base, n_theta)]
+            thetas = [T for _, _, T in bases(n, k, p, base, 1 if q and (n, k) == (4, 2) else n_theta)]
             for obs in obs_list:
                 for lo, hi in _chunks(total, 150 if q else 1000):
                     blocks.append({'kind': 'blk-grid', 'n': n, 'k': k, 'p': p, 'vals': vals, 'obs': obs[:k],
@@ -690,7 +690,7 @@ def run(ctx):
     for n in ns:
         for k in (1, 2):
             for p in (1, 2):
-                for bi, (j, S, T) in enumerate(bases(n, k, p, base, nb)):
+                for bi, (j, S, T) in enumerate(bases(n, k, p, base, 1 if q and n == 6 else nb)):
                     # observed summaries: a row of the data (even bases) or a point off the data (odd bases)
                     obs = list(S[0]) if bi % 2 == 0 else [1.5, -2][:k]
                     cells = n * (k + p)
